@@ -157,6 +157,10 @@ func rigs() []rig {
 		{name: "Runs(collect each)", nsrc: 1, build: func(s []*sx.Src, c *cb) sstream {
 			return erase[[]int](runsCollector{stream.Runs[int](s[0], func(a, b int) bool { return a == b })})
 		}},
+		// the consumer looks at the first item of every run only; the outer Next skips the rest itself
+		{name: "Runs(first of each)", nsrc: 1, build: func(s []*sx.Src, c *cb) sstream {
+			return erase[int](runsFirst{stream.Runs[int](s[0], func(a, b int) bool { return a == b })})
+		}},
 		// reducers
 		{name: "Collect", nsrc: 1, reduce: func(ctx context.Context, s []*sx.Src, c *cb) (string, error) {
 			r, err := stream.Collect[int](ctx, s[0])
@@ -272,6 +276,30 @@ func (r runsCollector) Next(ctx context.Context) ([]int, error) {
 	}
 }
 func (r runsCollector) Close() { r.s.Close(); runsStates.Delete(r.s) }
+
+// runsFirst yields the first item of every run and leaves the rest of the inner stream undrained.
+type runsFirst struct {
+	s stream.Stream[stream.Stream[int]]
+}
+
+func (r runsFirst) Next(ctx context.Context) (int, error) {
+	stAny, _ := runsStates.LoadOrStore(r.s, &runsState{})
+	st := stAny.(*runsState)
+	if st.inner == nil {
+		in, err := r.s.Next(ctx)
+		if err != nil {
+			return 0, err
+		}
+		st.inner = in
+	}
+	v, err := st.inner.Next(ctx)
+	if err != nil {
+		return 0, err // (a run is never empty, so End here is reported as it is: a wrong output)
+	}
+	st.inner = nil
+	return v, nil
+}
+func (r runsFirst) Close() { r.s.Close(); runsStates.Delete(r.s) }
 
 // ------------------------------------------------------------------------------------------------
 
